@@ -30,11 +30,10 @@ def shift_all(b, units, sign):
     starts = set()
     joint = _month_shift(b, sign * (12 * years + months))
     starts.add(joint)
-    if years and months:
-        a = _month_shift(b, sign * 12 * years)
-        starts.add(_month_shift(a, sign * months) if a is not None else None)
-        a = _month_shift(b, sign * months)
-        starts.add(_month_shift(a, sign * 12 * years) if a is not None else None)
+    # "several units in one phrase add up": years, decades and months are one shift of
+    # 12*y + m months, clamped once.  (The design-phase relaxation that also accepted clamping
+    # year and month steps one after the other was dropped: it hid a change that applies the
+    # units one at a time, e.g. 2020-02-29 minus "1 year 1 month" = 2019-01-29, not 01-28.)
     out = set()
     for s in starts:
         if s is None:
